@@ -37,7 +37,7 @@ type childSpec struct {
 	Ops         int         `json:"ops"`
 	MaxDistinct int         `json:"max_distinct_programs"` // goroutine g runs program g % MaxDistinct
 	Rounds      []roundSpec `json:"rounds"`
-	Faces       []faceID    `json:"faces,omitempty"` // probe mode
+	Faces       []faceID    `json:"faces,omitempty"` // probe and sweep modes
 	Repeats     int         `json:"repeats"`         // every round is executed this many times (replay)
 	Solo        bool        `json:"solo"`            // compare with the programs run alone
 	Out         string      `json:"out"`             // JSONL records
@@ -65,7 +65,7 @@ type mismatch struct {
 
 // rec is one line of the child's output file.
 type rec struct {
-	Type        string `json:"type"` // header | begin | round | stopped | pbegin | pend | done
+	Type        string `json:"type"` // header | begin | round | stopped | pbegin | pend | sbegin | sface | done
 	Pid         int    `json:"pid,omitempty"`
 	RaceEnabled bool   `json:"race_enabled,omitempty"`
 	Mode        string `json:"mode,omitempty"`
@@ -132,6 +132,23 @@ func childMain(specPath string) {
 			flag, mx := probeFace(id)
 			emit(rec{Type: "pend", Face: id.String(), Flag: flag, ProbeMax: mx, LoadMs: time.Since(t0).Milliseconds()})
 		}
+	case "sweep":
+		if cs.Repeats < 1 {
+			cs.Repeats = 1
+		}
+		for _, id := range cs.Faces {
+			for rep := 0; rep < cs.Repeats; rep++ {
+				emit(rec{Type: "sbegin", Face: id.String(), Rep: rep, LogBegin: logSize()})
+				r := sweepFace(id, rep, logSize)
+				emit(r)
+				if r.LogEnd > maxChildLogBytes {
+					emit(rec{Type: "stopped", Face: id.String(), LogEnd: r.LogEnd})
+					emit(rec{Type: "done"})
+					out.Close()
+					os.Exit(0)
+				}
+			}
+		}
 	case "race", "overlap":
 		if cs.Repeats < 1 {
 			cs.Repeats = 1
@@ -164,21 +181,12 @@ func childMain(specPath string) {
 var selfTestVar int
 
 func selfTestRace() {
-	start := make(chan struct{})
-	var wg sync.WaitGroup
-	for g := 0; g < 2; g++ {
-		wg.Add(1)
-		go func() {
-			defer wg.Done()
-			<-start
-			for i := 0; i < 50; i++ {
-				selfTestBump()
-				runtime.Gosched()
-			}
-		}()
-	}
-	close(start)
-	wg.Wait()
+	runBarrier(2, func(int) {
+		for i := 0; i < 50; i++ {
+			selfTestBump()
+			runtime.Gosched()
+		}
+	})
 }
 
 //go:noinline
@@ -246,21 +254,10 @@ func runRound(cs *childSpec, rs roundSpec, rep int, logSize func() int64) rec {
 	}
 	prev := runtime.GOMAXPROCS(rs.Procs)
 	results := make([]*result, rs.N)
-	start := make(chan struct{})
-	var wg sync.WaitGroup
-	for g := 0; g < rs.N; g++ {
-		wg.Add(1)
-		go func(g int) {
-			// Between the receive below and wg.Done there is no synchronisation of
-			// the monitor's own: private state, private result slot.
-			defer wg.Done()
-			<-start
-			results[g] = runProgram(e, cs.Seed, rs.Round, g%distinct, obs, g)
-		}(g)
-	}
 	t1 := time.Now()
-	close(start)
-	wg.Wait()
+	runBarrier(rs.N, func(g int) {
+		results[g] = runProgram(e, cs.Seed, rs.Round, g%distinct, obs, g)
+	})
 	r.ConcMs = time.Since(t1).Milliseconds()
 	runtime.GOMAXPROCS(prev)
 	for _, res := range results {
@@ -381,4 +378,40 @@ func probeFace(id faceID) (flag string, maxRatio int) {
 		}
 	}
 	return "", maxRatio
+}
+
+// runBarrier releases n goroutines from a start barrier, runs work(g) in each
+// and returns when all have finished.
+//
+// Discipline of the race pass: between the start barrier and the end of
+// work(g) the monitor adds no synchronisation. A goroutine that has finished
+// does NOT exit: it closes its own channel and then blocks on a channel that the
+// coordinator closes after it has heard from everybody. (The race detector
+// drops a report when the goroutine that made the earlier of the two accesses
+// has already exited and its stack can no longer be restored; keeping every
+// goroutine alive until the end makes detection reliable.) The edges this adds
+// are worker-end -> coordinator -> worker-after-its-end: they order nothing
+// that happens inside work, so they cannot hide a race between two workers.
+func runBarrier(n int, work func(g int)) {
+	start := make(chan struct{})
+	release := make(chan struct{})
+	finished := make([]chan struct{}, n)
+	var exited sync.WaitGroup
+	for g := 0; g < n; g++ {
+		finished[g] = make(chan struct{})
+		exited.Add(1)
+		go func(g int, mine chan struct{}) {
+			<-start
+			work(g)
+			close(mine)
+			<-release
+			exited.Done()
+		}(g, finished[g])
+	}
+	close(start)
+	for g := 0; g < n; g++ {
+		<-finished[g]
+	}
+	close(release)
+	exited.Wait()
 }
